@@ -304,7 +304,8 @@ def run(prop, spec, tier, seed, replay, scratch, nproc, t0):
     watchdog = spec.get("watchdog", {}).get(tier, 1500 if tier == "quick" else 14000)
     jobs = []
     for m in modes:
-        wtier = "quick" if m == "cover" else tier  # the coverage pass repeats the quick workload
+        # extra observation passes (coverage; checkptr for some properties) repeat the quick workload
+        wtier = "quick" if m in spec.get("quick_tier_modes", ("cover",)) else tier
         base = [workers[m], "-prop", prop, "-tier", wtier, "-seed", str(seed), "-mode", m]
         env = dict(RUN_ENV[m])
         env.update(spec.get("env", {}))
@@ -480,7 +481,7 @@ def run(prop, spec, tier, seed, replay, scratch, nproc, t0):
         "wall_s": round(wall, 2),
         "violations": int(new_violations),
     }
-    if not replay:
+    if not replay and not os.environ.get("VERIF_NO_EVIDENCE"):
         os.makedirs(os.path.join(VERIF, "evidence"), exist_ok=True)
         with open(os.path.join(VERIF, "evidence", prop + ".json"), "w") as f:
             json.dump(evidence, f, indent=1, sort_keys=True)
